@@ -79,6 +79,12 @@ func CalibrateC03() {
 		for i := 0; i < 40; i++ {
 			try(g03Build(m, func(int) string { return g03Seps[r.Intn(len(g03Seps))] }, r.U64()))
 		}
+		for _, wm := range g03WordMasks(pay.tmpl) {
+			for _, sep := range g03Seps[:3] {
+				sep := sep
+				try(g03Build(m, func(int) string { return sep }, wm))
+			}
+		}
 	}
 	var keys []string
 	for k, a := range byKey {
